@@ -107,7 +107,7 @@ def describe(tier):
             'quick': '2 cells, all mask placements and payloads symbolic; 2 inputs for n-ary commands (masked+masked, masked+nomask); 2 control points; every option value; float64 and unsigned (uint64) data',
             'thorough': '<=3 cells (MeanToMid without zero-stripping: 4), shape (2,2), 2-3 inputs, masked / nomask / plain inputs, int64, uint64 and float64 data (CurveZScore commands: 2 cells)',
         },
-        'outside': ['IEEE-754 rounding/overflow/NaN', 'hard masks', 'CSV/NetCDF mask creation (C17/C18)',
+        'outside': ['IEEE-754 rounding/overflow/NaN', 'hard masks', 'unsigned data above 2^20 (only the wrap below zero is modelled), 8/16/32-bit element types', 'CSV/NetCDF mask creation (C17/C18)',
                     'paths leaving the real-number model (statistics of an all-missing array etc.)'],
         'assumptions': D.STUBS + ['A-pre: data flagged fuzzy lies in [-1,1] at non-missing cells; statistic-driven commands get >=2 distinct non-missing values; distinct z-scores; StartVal<EndVal for NormalizeZScore',
                                   'non-interference is checked by self-composition: the command runs twice in one path on inputs that agree on masks and visible values and carry independent payloads'],
